@@ -5,6 +5,7 @@ Property theorems only.
 import Bourse.Model.Ops
 import Bourse.Lemmas.MatchFrame
 import Bourse.Lemmas.ListAux
+import Bourse.Lemmas.RefineStep
 
 namespace Bourse.Props.C06
 open Bourse
@@ -102,5 +103,96 @@ example :
     ((b0.run ([.modify 0 none (some 5)] ++ drain)).trades.map (·.passive)) = [1, 2] ∧
     ((b0.run [.modify 0 (some 8) none]).trades.map (fun t => (t.active, t.passive, t.price, t.vol))) = [(0, 3, 8, 4)] := by
   decide
+
+/-! ### The same statements for every reachable book, through the refinement -/
+
+/-- In every reachable state (invariant holds) a modify request with an in-range price that does not
+fault acts on the abstract state — order table, two FIFO id lists, trade log — exactly as the
+reference engine's `modify` does. -/
+theorem modify_is_reference_modify {b : Book} (h : Inv b) (id : Nat) (np nv : Option Nat)
+    (hp : ∀ p, np = some p → p ≤ MAXP) (hnf : (b.modifyOrder id np nv).faulted = false) :
+    abs (b.modifyOrder id np nv) = Ref.modify (abs b) id np nv :=
+  modify_refines h id np nv hp hnf
+
+/-- Reference engine, pure volume reduction: both queues, the trade log and every other order are
+untouched; the order's record changes in its volume only. -/
+theorem ref_reduce_keeps_place (s : Ref.RState) (id : Nat) (o : Order) (v : Nat)
+    (ho : s.orders[id]? = some o) (ha : o.status = .active) (hv : v < o.vol) :
+    Ref.modify s id none (some v) = { s with orders := s.orders.set id { o with vol := v } } := by
+  simp [Ref.modify, ho, ha, hv, Book.offGrid]
+
+/-- Reference engine, any other modification of an Active order (a price is given, or the volume
+is not smaller): the order is erased from its queue and handed, with the new price and volume and
+nothing else changed, to `enter` — the very function that places a newly arrived limit order. -/
+theorem ref_replace_is_arrival (s : Ref.RState) (id : Nat) (o : Order) (p v : Option Nat)
+    (ho : s.orders[id]? = some o) (ha : o.status = .active) (hg : Book.offGrid s.tick p = false)
+    (hre : p.isSome ∨ ∃ w, v = some w ∧ o.vol ≤ w) :
+    Ref.modify s id p v =
+      { (Ref.enter (s.setQueue o.side ((s.queue o.side).erase id))
+            { o with vol := v.getD o.vol, price := p.getD o.price } false).1 with
+        orders := (Ref.enter (s.setQueue o.side ((s.queue o.side).erase id))
+            { o with vol := v.getD o.vol, price := p.getD o.price } false).1.orders.set id
+          (Ref.enter (s.setQueue o.side ((s.queue o.side).erase id))
+            { o with vol := v.getD o.vol, price := p.getD o.price } false).2 } := by
+  rcases hre with hp | ⟨w, hw, hle⟩
+  · cases p with
+    | none => cases hp
+    | some q => cases v <;> simp [Ref.modify, ho, ha, hg]
+  · subst hw
+    cases p with
+    | none => simp [Ref.modify, ho, ha, hg, Nat.not_lt.mpr hle]
+    | some q => simp [Ref.modify, ho, ha, hg]
+
+/-- A newly placed limit order goes through the same `enter` (so "as if newly arrived" is literal). -/
+theorem ref_place_limit_is_enter (s : Ref.RState) (id : Nat) (o : Order)
+    (ho : s.orders[id]? = some o) (hn : o.status = .new) (hm : Book.isMarket o = false) :
+    Ref.place s id =
+      { (Ref.enter s { o with status := .active, arr := s.t } false).1 with
+        orders := (Ref.enter s { o with status := .active, arr := s.t } false).1.orders.set id
+          (Ref.enter s { o with status := .active, arr := s.t } false).2 } := by
+  simp [Ref.place, ho, hn, hm]
+
+/-- The reference loop never touches the aggressor's identity: id, side, trader, arrival time,
+starting volume and price are those it came with. -/
+theorem ref_match_keeps_identity (t : Nat) (q : List Nat) (st : Ref.MatchSt) :
+    (Ref.matchQ t q st).2.agg.id = st.agg.id ∧ (Ref.matchQ t q st).2.agg.side = st.agg.side ∧
+    (Ref.matchQ t q st).2.agg.trader = st.agg.trader ∧ (Ref.matchQ t q st).2.agg.arr = st.agg.arr ∧
+    (Ref.matchQ t q st).2.agg.svol = st.agg.svol ∧ (Ref.matchQ t q st).2.agg.price = st.agg.price := by
+  induction q generalizing st with
+  | nil => simp [Ref.matchQ]
+  | cons j q ih =>
+    unfold Ref.matchQ
+    split
+    · simp
+    · split
+      · simp only
+        split
+        · refine ⟨(ih _).1.trans ?_, (ih _).2.1.trans ?_, (ih _).2.2.1.trans ?_, (ih _).2.2.2.1.trans ?_,
+            (ih _).2.2.2.2.1.trans ?_, (ih _).2.2.2.2.2.trans ?_⟩ <;> (simp only; split <;> rfl)
+        · simp only
+          refine ⟨?_, ?_, ?_, ?_, ?_, ?_⟩ <;> (split <;> rfl)
+      · simp
+
+/-- Hence a modified order keeps its id, side, trader, original arrival time and starting volume
+through `enter`, whatever happens to it there. -/
+theorem ref_enter_keeps_identity (s : Ref.RState) (agg : Order) (market : Bool) :
+    (Ref.enter s agg market).2.id = agg.id ∧ (Ref.enter s agg market).2.side = agg.side ∧
+    (Ref.enter s agg market).2.trader = agg.trader ∧ (Ref.enter s agg market).2.arr = agg.arr ∧
+    (Ref.enter s agg market).2.svol = agg.svol ∧ (Ref.enter s agg market).2.price = agg.price := by
+  have hm : (Ref.matchPhase s agg).2.id = agg.id ∧ (Ref.matchPhase s agg).2.side = agg.side ∧
+      (Ref.matchPhase s agg).2.trader = agg.trader ∧ (Ref.matchPhase s agg).2.arr = agg.arr ∧
+      (Ref.matchPhase s agg).2.svol = agg.svol ∧ (Ref.matchPhase s agg).2.price = agg.price := by
+    unfold Ref.matchPhase
+    split
+    · exact ref_match_keeps_identity _ _ _
+    · simp
+  rw [Ref.enter_eq]
+  split
+  · simp
+  · split
+    · exact hm
+    · split
+      · exact hm
+      · exact hm
 
 end Bourse.Props.C06
